@@ -26,7 +26,7 @@ var validRunes = []rune{'a', 'Z', '0', ' ', '\n', '\t', 0, 0xe9, 0x6f22, 0x1f469
 // AnyItem draws an item of any kind; depth bounds cell nesting.
 func AnyItem(tokens []string, depth int) *rapid.Generator[Item] {
 	return rapid.Custom(func(t *rapid.T) Item {
-		kinds := []string{"nil", "str", "str", "str", "rune", "int", "i32n", "u8", "f64", "bool", "ints", "bytes", "map", "emap", "sx", "sn", "sns", "psx", "if", "if", "if", "ifp", "tm", "jm", "fmtr"}
+		kinds := []string{"nil", "str", "str", "str", "rune", "int", "i32n", "u8", "f64", "bool", "ints", "bytes", "map", "emap", "sx", "sn", "sns", "psx", "if", "if", "if", "ifp", "tm", "jm", "fmtr", "nstr", "stderr"}
 		if depth > 0 {
 			kinds = append(kinds, "cell", "cell", "pcell")
 		}
@@ -34,7 +34,7 @@ func AnyItem(tokens []string, depth int) *rapid.Generator[Item] {
 		str := func(label string) Str { return Str(StringOf(tokens, 0, 4).Draw(t, label)) }
 		it := Item{K: k}
 		switch k {
-		case "str", "bytes", "sns", "tm", "jm":
+		case "str", "bytes", "sns", "tm", "jm", "nstr", "stderr":
 			it.S = str("s")
 		case "rune":
 			it.N = int64(rapid.SampledFrom(validRunes).Draw(t, "r"))
